@@ -18,6 +18,7 @@ from ..entity_query_language.symbolic import (
     The,
     Variable,
     Literal,
+    Entity,
 )
 
 from .dao import get_dao_class
@@ -394,6 +395,10 @@ class EQLTranslator:
 
     def translate(self) -> None:
         """Translate the EQL query to SQL."""
+        if not isinstance(self.select_like, Entity):
+            raise UnsupportedQueryTypeError(
+                f"Only queries over a single entity can be translated, got {type(self.select_like)}"
+            )
         dao_class = get_dao_class(self.select_like.selected_variable._type_)
         if dao_class is None:
             raise MissingDAOError(
@@ -610,7 +615,9 @@ class EQLTranslator:
             extractor = DomainValueExtractor(self.session)
             return extractor.extract_from_variable(operand)
 
-        return operand
+        raise UnsupportedQueryTypeError(
+            f"Unsupported comparator operand type: {type(operand)}"
+        )
 
     def _handle_contains_operator(
         self, query: Comparator, left: Any, right: Any, operator_name: str
